@@ -174,7 +174,7 @@ fn gpieces() -> BoxedStrategy<PieceCase> {
     (proptest::collection::vec(gpiece(), 0..=6), 0u8..3).prop_map(|(pieces, context)| PieceCase { pieces, context }).boxed()
 }
 
-fn inv_all(s: &str, st: &mut Stats) -> Result<(), String> {
+pub fn inv_all(s: &str, st: &mut Stats) -> Result<(), String> {
     fn one<I: ParseInst>(s: &str, st: &mut Stats) -> Result<(), String> {
         let Ok(Ok(p)) = parse::<I>(s) else { return Ok(()) };
         let o = observe(&p);
